@@ -118,6 +118,9 @@ func (e *Engine) sortOf(t types.Type) string {
 	if isTimeType(t) {
 		return STime
 	}
+	if isSyncType(t) {
+		return SInt // sync.Mutex, sync.WaitGroup, ...: opaque
+	}
 	if a, ok := t.(*types.Alias); ok {
 		return e.sortOf(types.Unalias(a))
 	}
